@@ -18,7 +18,12 @@ simulated exchange composed).
         `System::shutdown` / `System::abort` WITHOUT letting time pass
 
 `model`: every op is a list of `SysHandle.Act`s over the composed concrete engine / exchange of
-`Model/TradingLoop.lean`. `spec`: the abstract specification evaluated on the histories.
+`Model/TradingLoop.lean`; where the REAL engine task panics (`TradingLoop.tickPanics`: a vanishing
+divisor of the position code, only reachable outside the input guard `PosOps`) the block ends in
+`panic` and the rest of the case is empty, as in the harness.
+`spec`: the OPS-LEVEL specification `TradingLoop.OpsSpec` (review B C20E-1): a function of the op lines
+and of the C08 / C02 / C01 specifications only — it never runs the model. It is silent
+(correspondence only) from the first op on that leaves the class it determines.
 -/
 namespace BarterModel.Driver.C20E
 open BarterModel.Driver BarterModel.Driver.EngineCommon BarterModel.SysHandle BarterModel.TradingLoop
@@ -119,27 +124,34 @@ structure St where
   now : Nat
   latency : Nat
   dues : List Nat
+  /-- the engine task has panicked (`tickPanics`): the harness's case ends there -/
+  dead : Bool
 
-def St.init : St := ⟨none, lMkEngine 0 false, 0, lCfg 0 0 0 0 0, 0, 0, false, 0, 0, []⟩
+def St.init : St := ⟨none, lMkEngine 0 false, 0, lCfg 0 0 0 0 0, 0, 0, false, 0, 0, [], false⟩
 
 /-- "await until nothing moves any more" with a virtual clock: as `SysHandle.pickSettle`, but an
 account event is delivered only once it is due (responses and notifications of the mock exchange
 leave it `latency` ms after the request; the error answering a cancel request leaves at once). Every
 transition is a `SysHandle.step`. -/
-def settleLoop : Nat → LSys → List Nat → Nat → Nat → LSys × List Nat
-  | 0, s, d, _, _ => (s, d)
+def settleLoop : Nat → LSys → List Nat → Nat → Nat → LSys × List Nat × Bool
+  | 0, s, d, _, _ => (s, d, false)
   | fuel + 1, s, d, now, lat =>
-    if s.stopped.isSome then (s, d)
-    else if !s.feed.isEmpty then
-      let s' := step lEngine (lExchange clk) s .engine
-      let fresh := s'.pending.drop s.pending.length
-      let d' := d ++ fresh.map fun a => match a with | .cancelled _ _ _ => now | _ => now + lat
-      settleLoop fuel s' d' now lat
-    else if !s.market.isEmpty then settleLoop fuel (step lEngine (lExchange clk) s .fwdMarket) d now lat
+    if s.stopped.isSome then (s, d, false)
     else
-      match d.findIdx? (· ≤ now) with
-      | some k => settleLoop fuel (step lEngine (lExchange clk) s (.fwdAccount k)) (d.eraseIdx k) now lat
-      | none => (s, d)
+      match s.feed with
+      | e :: _ =>
+        -- the real engine task panics on this event: nothing after it is observable
+        if tickPanics s.eng.state e then (s, d, true) else
+        let s' := step lEngine (lExchange clk) s .engine
+        let fresh := s'.pending.drop s.pending.length
+        let d' := d ++ fresh.map fun a => match a with | .cancelled _ _ _ => now | _ => now + lat
+        settleLoop fuel s' d' now lat
+      | [] =>
+        if !s.market.isEmpty then settleLoop fuel (step lEngine (lExchange clk) s .fwdMarket) d now lat
+        else
+          match d.findIdx? (· ≤ now) with
+          | some k => settleLoop fuel (step lEngine (lExchange clk) s (.fwdAccount k)) (d.eraseIdx k) now lat
+          | none => (s, d, false)
 
 def fuel : Nat := 100000
 
@@ -206,6 +218,8 @@ def tickTag (k : Nat) : Tick LEv → String
 
 /-- common part of `model` and `spec`: the composed model run on the op; `obs` chooses what is printed -/
 structure View where
+  /-- the part of a `settle` / `sleep` block printed BEFORE the latency wait (events, `alive`) -/
+  atSettleHead : St → LSys → List String
   /-- block of a `settle` / `sleep`: state before, state at the observation -/
   atSettle : St → LSys → List String
   /-- block of `shutdown` / `abort`: state at the observation, final state, engine, audit -/
@@ -223,12 +237,13 @@ def runOp (v : View) (st : St) (toks : List String) : St × List String :=
       let cfg := lCfg k quote base fee lat
       let s : LSys := lInit clk build cfg
       ({ sys := some s, e0 := build.engine, k := k, cfg := cfg, printed := 0, mktCount := 0, gone := false,
-         now := 0, latency := lat, dues := [0] }, v.built build)
+         now := 0, latency := lat, dues := [0], dead := false }, v.built build)
     | _, _, _, _, _, _, _ => (st, ["bad-op"])
   | _ =>
     match st.sys with
     | none => (st, ["bad-op"])
     | some s =>
+    if st.dead then (st, []) else
     if st.gone then
       match toks with
       | "mkt" :: _ | "call" :: _ | ["settle"] | ["sleep", _] | ["shutdown"] | ["abort"] => (st, ["nosys"])
@@ -253,16 +268,19 @@ def runOp (v : View) (st : St) (toks : List String) : St × List String :=
       | none => (st, ["bad-op"])
       | some ms =>
         let now := st.now + ms
-        let (s1, d1) := settleLoop fuel s st.dues now st.latency
+        let (s1, d1, p1) := settleLoop fuel s st.dues now st.latency
+        if p1 then ({ st with sys := some s1, dead := true }, ["panic"]) else
         let lines := v.atSettle st s1
         let st1 := { st with printed := s1.processed.length }
         -- the observer's queries take `latency` ms to be answered
         let now2 := now + st.latency
-        let (s2, d2) := settleLoop fuel s1 d1 now2 st.latency
+        let (s2, d2, p2) := settleLoop fuel s1 d1 now2 st.latency
+        if p2 then ({ st1 with sys := some s2, dead := true }, v.atSettleHead st s1 ++ ["panic"]) else
         ({ st1 with sys := some s2, dues := d2, now := now2 }, lines)
     | [how] =>
       if how == "shutdown" || how == "abort" then
-        let (s1, d1) := settleLoop fuel s st.dues st.now st.latency
+        let (s1, d1, p1) := settleLoop fuel s st.dues st.now st.latency
+        if p1 then ({ st with sys := some s1, dead := true }, ["panic"]) else
         let s2 := run lEngine (lExchange clk) s1 [Act.close (if how == "shutdown" then .graceful else .aborted)]
         if s2.closePanicked then ({ st with sys := some s2, gone := true, dues := d1 }, ["panic"]) else
         let acts := schedActs lEngine (lExchange clk) pickDrain fuel s2
@@ -276,6 +294,7 @@ def runOp (v : View) (st : St) (toks : List String) : St × List String :=
     | _ => (st, ["bad-op"])
 
 def modelView : View where
+  atSettleHead st s1 := (newEvents st s1).2 ++ [ "alive " ++ fmtBool s1.stopped.isNone ]
   atSettle st s1 :=
     (newEvents st s1).2 ++ [ "alive " ++ fmtBool s1.stopped.isNone ] ++ viewLines st.k s1
   atClose st how s1 s3 eng audit :=
@@ -296,61 +315,147 @@ def model : Drv St where
   init := St.init
   step := runOp modelView
 
-/-! ### spec view
+/-! ### spec: the ops-level specification (`TradingLoop.OpsSpec`)
 
-The abstract specification evaluated on the histories of the run: what an observer who has heard the
-notifications processed so far must show (`hnet`, `hbal`: C02 net of the fills heard, C09 latest
-balance heard), and, when nothing is in flight any more, what the exchange's history-only
-specification (C08 `MockExchange.Spec`: accepted orders by the funds rule, ledger = initial minus
-debits, one fill per accepted order) says the engine must show (`net`, `led`, `agree 1`). -/
+A function of the op lines only. It reads the ops as a SCRIPT under the block discipline of the
+harness (stated in `props/C20E.py` ASSUMPTIONS; the `h` / `m` lines check it on every block): the
+handle calls made since the last await reach the engine first, in call order, then the market items
+pushed, in order; every `settle` / `sleep` ends with everything answered (the observer lets `latency`
+ms pass). Hence, with `R` = the requests `OpsSpec.requests` derives from the script so far:
+* the EXCHANGE has processed all of `R` at every observation: `xbal` / `xtrades` = the C08
+  specification's ledger / fills over `R` (`Props.C20E.model_refines_ops_spec`, conjuncts 1-2);
+* the ENGINE has heard the answers to the requests of earlier blocks, and — at latency 0 — of this
+  block: `hnet` / `hbal` (and `fhnet` / `fhbal` of the engine handed back) = C02 net / C08 ledger over
+  the requests heard (`engine_view_is_heard`);
+* when nothing is outstanding (latency 0, or this block sent cancel requests only — their error answer
+  leaves the exchange at once): `net`, `led`, `agree 1`, empty `ord<i>`, `resp` = one response per
+  request (`model_refines_ops_spec`, conjuncts 3-6).
+Outside the class the specification determines (`OpsSpec.DetEv`: a `close_positions` / `cancel_orders`
+command, a request for another exchange or instrument; or an input outside the guard `PosOps`) it
+prints nothing from there on: those blocks are correspondence-only. -/
 
-def fmtBalSet : List Stale.Bal → String
-  | [] => "none"
-  | [b] => s!"{fmtRat b.1} {fmtRat b.2}"
-  | bs =>
-    -- several values with the greatest timestamp: any of them may be held (C09)
-    "{" ++ "|".intercalate (bs.map fun b => fmtRat b.1) ++ "} {" ++ "|".intercalate (bs.map fun b => fmtRat b.2) ++ "}"
+structure OSt where
+  active : Bool
+  k : Nat
+  cfg : MockExchange.Cfg
+  trading0 : Bool
+  latency : Nat
+  /-- script events of the blocks already observed -/
+  script : List LEv
+  /-- handle events of the current block, in call order -/
+  calls : List LEv
+  /-- market items of the current block, in push order -/
+  mkts : List MktEv
+  mktCount : Nat
+  /-- the case has left the class the specification determines -/
+  silent : Bool
+  gone : Bool
 
-def heardLines (pfxN pfxB : String) (k : Nat) (heard : List TradingLoop.AccEv) : List String :=
-  ((List.range k).map fun i => s!"{pfxN}{i} {fmtRat (TradingLoop.Spec.heardPos heard i)}") ++
-  ((List.range (k + 1)).map fun a =>
-    s!"{pfxB}{a} " ++ fmtBalSet (Stale.valuesAtMax (TradingLoop.Spec.heardBalMsgs heard a)))
+def OSt.init : OSt := ⟨false, 0, lCfg 0 0 0 0 0, false, 0, [], [], [], 0, true, false⟩
 
-def exchSpecLines (st : St) (s : LSys) : List String :=
-  let acc := MockExchange.Spec.accepted st.cfg (MockExchange.opens st.cfg (exchHistory clk s.requests))
-  let fills := MockExchange.Spec.fills st.cfg acc
-  let ledger := MockExchange.Spec.ledger st.cfg acc
-  ((List.range st.k).map fun i => s!"net{i} {fmtRat (TradingLoop.Spec.net fills i)}") ++
-  (ledger.zipIdx.map fun (b, a) => s!"led{a} {fmtRat b.1} {fmtRat b.2}") ++ [ "agree 1" ] ++
-  -- every response has been processed: no order is tracked any more (the life cycle has closed)
-  ((List.range st.k).map fun i => s!"ord{i} ") ++
-  -- claim (1), request / response conservation (oracle review C20E-H1): the responses the engine has
-  -- processed are, as a multiset of (kind, instrument, client order id), exactly the requests it sent:
-  -- one response per request, none twice, none missing
-  -- (`Props.C20E.responses_are_requests_at_quiescence`)
-  [ respLine (s.requests.map reqIdent) ]
+/-- input guard `PosOps` on one script event -/
+def posEv : LEv → Bool
+  | .command (.sendOpenRequests rs) => rs.all fun r => decide (0 < r.quantity) && decide (0 < r.price)
+  | .market m => m.marker || (decide (0 < m.price) && (match m.react with | some sq => decide (0 < sq.2) | none => true))
+  | _ => true
 
-def specView : View where
-  atSettle st s1 :=
-    heardLines "hnet" "hbal" st.k (accountOf s1.processed) ++
-    (if s1.stopped.isNone && s1.feed.isEmpty && s1.market.isEmpty && s1.pending.isEmpty
-      then exchSpecLines st s1 else [])
-  atClose st how s1 s3 _ _ :=
-    -- the observation taken before the close is an observation like any other (oracle review C20E-M1)
-    heardLines "hnet" "hbal" st.k (accountOf s1.processed) ++
-    (if s1.stopped.isNone && s1.feed.isEmpty && s1.market.isEmpty && s1.pending.isEmpty
-      then exchSpecLines st s1 else []) ++
-    [ "res " ++ how, "shutdown_audit H:shutdown" ] ++
-    heardLines "fhnet" "fhbal" st.k (accountOf s3.processed) ++ [ "own 1" ]
-  built b :=
-    [ "built feed=" ++ (if b.engineFeedMode == .iterator then "iter" else "stream") ++
-        " trading=" ++ (if b.engine.core.enabled then "on" else "off") ]
-  pushed n := [s!"pushed {n}"]
-  sent _ := ["sent"]
+def isCancelReq : Req → Bool
+  | .cnl _ => true
+  | .opn _ => false
 
-def spec : Drv St where
-  init := St.init
-  step := runOp specView
+/-- exchange view and engine view (of the requests heard) from the specifications -/
+def specExchLines (cfg : MockExchange.Cfg) (reqs : List Req) : List String :=
+  let acc := MockExchange.Spec.accepted cfg (MockExchange.opens cfg (exchHistory clk reqs))
+  ((MockExchange.Spec.ledger cfg acc).zipIdx.map fun (b, a) => s!"xbal{a} {fmtRat b.1} {fmtRat b.2}") ++
+  [ "xtrades " ++ joinOr ((MockExchange.Spec.fills cfg acc).map fun t =>
+      s!"{t.id}:{t.instr}:{fmtXSide t.side}:{fmtRat t.qty}@{fmtRat t.price}:{fmtRat t.fees}") ]
+
+def specViewLines (pfxN pfxB : String) (k : Nat) (cfg : MockExchange.Cfg) (reqs : List Req) : List String :=
+  let acc := MockExchange.Spec.accepted cfg (MockExchange.opens cfg (exchHistory clk reqs))
+  let fills := MockExchange.Spec.fills cfg acc
+  ((List.range k).map fun i => s!"{pfxN}{i} {fmtRat (TradingLoop.Spec.net fills i)}") ++
+  ((MockExchange.Spec.ledger cfg acc).zipIdx.map fun (b, a) => s!"{pfxB}{a} {fmtRat b.1} {fmtRat b.2}")
+
+/-- the lines of one observation; second component: the script including this block -/
+def specObserve (s : OSt) : List String × List LEv :=
+  let script' := s.script ++ s.calls ++ s.mkts.map Ev.market
+  let rPrev := OpsSpec.requests s.trading0 s.script
+  let rAll := OpsSpec.requests s.trading0 script'
+  let fresh := rAll.drop rPrev.length
+  let quiet := s.latency == 0 || fresh.all isCancelReq
+  let heard := if s.latency == 0 then rAll else rPrev
+  ([ "h " ++ joinOr (s.calls.map (tagOf s.k)),
+     "m " ++ joinOr (s.mkts.map fun m => s!"M:{m.id}") ] ++
+   specExchLines s.cfg rAll ++
+   specViewLines "hnet" "hbal" s.k s.cfg heard ++
+   (if quiet then
+      specViewLines "net" "led" s.k s.cfg rAll ++ [ "agree 1" ] ++
+      ((List.range s.k).map fun i => s!"ord{i} ") ++
+      [ respLine (rAll.map reqIdent) ]
+    else []),
+   script')
+
+def spec : Drv OSt where
+  init := OSt.init
+  step s toks :=
+    match toks with
+    | ["sys", feed, trading, k, quote, base, fee, lat] =>
+      match parseMode? feed, parseOnOff? trading, k.toNat?, parseRat? quote, parseRat? base, parseRat? fee, lat.toNat? with
+      | some feed, some trading, some k, some quote, some base, some fee, some lat =>
+        ({ active := true, k := k, cfg := lCfg k quote base fee lat, trading0 := trading, latency := lat,
+           script := [], calls := [], mkts := [], mktCount := 0,
+           -- the C08 specification needs a well-formed configuration; a negative fee or balance is outside it
+           silent := !(lCfg k quote base fee lat).wf || decide (fee < 0), gone := false },
+         [ "built feed=" ++ (if feed == .iterator then "iter" else "stream") ++
+             " trading=" ++ (if trading then "on" else "off") ])
+      | _, _, _, _, _, _, _ => (s, ["bad-op"])
+    | _ =>
+      if !s.active then (s, ["bad-op"]) else
+      if s.gone || s.silent then
+        -- keep rejecting what the model rejects, say nothing else
+        match toks with
+        | "mkt" :: items =>
+          if items.isEmpty || (items.zipIdx.any fun (t, j) => (parseMkt j t).isNone) then (s, ["bad-op"]) else (s, [])
+        | "call" :: rest => if (parseCall rest).isNone then (s, ["bad-op"]) else (s, [])
+        | ["settle"] | ["shutdown"] | ["abort"] => (s, [])
+        | ["sleep", ms] => if ms.toNat?.isNone then (s, ["bad-op"]) else (s, [])
+        | _ => (s, ["bad-op"])
+      else
+      match toks with
+      | "mkt" :: items =>
+        let parsed := items.zipIdx.map fun (t, j) => parseMkt (s.mktCount + j) t
+        if parsed.any Option.isNone || items.isEmpty then (s, ["bad-op"]) else
+        let ms := parsed.filterMap id
+        if ms.all (fun m => OpsSpec.DetEv s.k (.market m) && posEv (.market m)) then
+          ({ s with mkts := s.mkts ++ ms, mktCount := s.mktCount + ms.length }, [s!"pushed {ms.length}"])
+        else ({ s with silent := true }, [])
+      | "call" :: rest =>
+        match parseCall rest with
+        | none => (s, ["bad-op"])
+        | some c =>
+          let ev : LEv := c.event
+          if OpsSpec.DetEv s.k ev && posEv ev then ({ s with calls := s.calls ++ [ev] }, ["sent"])
+          else ({ s with silent := true }, [])
+      | ["settle"] | ["sleep", _] =>
+        let ok : Bool := match toks with | ["sleep", ms] => ms.toNat?.isSome | _ => true
+        if !ok then (s, ["bad-op"]) else
+        let (lines, script') := specObserve s
+        ({ s with script := script', calls := [], mkts := [] }, lines)
+      | [how] =>
+        if how == "shutdown" || how == "abort" then
+          let (lines, script') := specObserve s
+          let rPrev := OpsSpec.requests s.trading0 s.script
+          let rAll := OpsSpec.requests s.trading0 script'
+          let heard := if s.latency == 0 then rAll else rPrev
+          ({ s with script := script', calls := [], mkts := [], gone := true },
+           lines ++
+           -- nothing but the `Shutdown` is processed after the observation (C20S `final_segment_any_schedule`):
+           -- the engine handed back has heard exactly what it had heard at the observation (F11)
+           -- (no `a` line: keys are matched by occurrence and the observation's `a` is not stated)
+           [ "res " ++ how, "h H:shutdown", "m ", "shutdown_audit H:shutdown" ] ++
+           specViewLines "fhnet" "fhbal" s.k s.cfg heard ++ [ "own 1" ])
+        else (s, ["bad-op"])
+      | _ => (s, ["bad-op"])
 
 end BarterModel.Driver.C20E
 
